@@ -109,7 +109,9 @@ def execute(program):
     steps, why = expected_steps(ref, {"steps": program["steps"]})
     if why:
         return res()
-    use_params = program["use_params"] and bool(ref.trainables)
+    use_params = program["use_params"]
+    # `params = module.get_parameters()` is what sessions pass, also when nothing is trainable (then it is the module's
+    # own, empty, list); None leaves `params` at integrate's default
     params = m.get_parameters() if use_params else None
     base = dict(steps=program["steps"], dt=dt, solver=program["solver"], vsolver=program["vsolver"])
     if program.get("use_param_state"):
